@@ -68,6 +68,7 @@ def run(chk, replay=None):
         ('NixFrame', 'MC_NixFrame_q.cfg', max(1, S // 2), {'cols': 2}, None),
         ('NixValid', 'MC_NixValid_q.cfg', 1, {}, None),
         ('NixValid', 'MC_NixValid_hist_q.cfg', max(1, S // 3), {}, None),
+        ('NixTime', 'MC_NixTime_q.cfg', 1, {}, None),
         ('MC_NixUnits', 'MC_NixUnits_reject.cfg', S * 20, {}, None),
         ('NixAxis', 'MC_NixAxis.cfg', S * 4, {'axes': 'quick'}, None),
         ('MC_NixVersion', 'MC_NixVersion.cfg', S * 4, {}, None),
@@ -85,7 +86,7 @@ def run(chk, replay=None):
         per[cfg] = len(recs)
     chk.extra['programs_per_source'] = per
     chk.extra['sanitizers'] = 'AddressSanitizer + UndefinedBehaviorSanitizer (-fno-sanitize-recover=undefined), library and harness instrumented, HDF5 not'
-    chk.rule = ('programs = every case of the NixMisuse table (8 misuse classes x entity kinds x variants) plus %s of the lines emitted by 20 configurations of '
+    chk.rule = ('programs = every case of the NixMisuse table (8 misuse classes x entity kinds x variants) plus %s of the lines emitted by 21 configurations of '
                 'the other specification modules, each executed in the ASan+UBSan build; non-trivial = distinct program; a program passes iff the replayer '
                 'survives it (exception or normal return)') % ('all' if chk.thorough else 'a 1-in-%d sample (by seed)' % S)
     chk.assumptions += ['HDF5 itself is not instrumented: memory errors inside libhdf5 caused by wrong arguments are only seen if they crash',
